@@ -19,21 +19,26 @@ Fixpoint bits_msb (n : nat) (v : N) : list bool :=
   | S k => N.testbit v (N.of_nat k) :: bits_msb k v
   end.
 
-(* groups of 8 bits (read order) become bytes; the first group is the LAST byte of the stream *)
-Fixpoint group8 (fuel : nat) (l : list bool) (acc : bytes) : bytes :=
-  match fuel with
-  | O => acc
-  | S f => match l with
-           | [] => acc
-           | _ => group8 f (skipn 8 l) (bits_val_msb (firstn 8 l) :: acc)
-           end
+(* groups of 8 bits (read order) become bytes; the first group is the LAST byte of the stream.
+   Structural on the list (no length is ever computed as a Peano number: streams have hundreds of thousands of bits) *)
+Fixpoint group8 (l : list bool) (acc : bytes) : bytes :=
+  match l with
+  | b7 :: b6 :: b5 :: b4 :: b3 :: b2 :: b1 :: b0 :: t => group8 t (bits_val_msb [b7; b6; b5; b4; b3; b2; b1; b0] :: acc)
+  | [] => acc
+  | _ => bits_val_msb l :: acc       (* a last partial group: not reached on the padded stream *)
+  end.
+
+(* (k + length l) mod 8, for k < 8, without building the length *)
+Fixpoint len_mod8 (l : list bool) (k : nat) : nat :=
+  match l with
+  | [] => k
+  | _ :: t => len_mod8 t (match k with 7%nat => 0%nat | _ => S k end)
   end.
 
 (* close a stream: end marker, zero padding up to a byte boundary (BIT_closeCStream) *)
 Definition pack_rbits (s : list bool) : bytes :=
-  let pad := ((8 - (S (length s)) mod 8) mod 8)%nat in
-  let full := repeat false pad ++ true :: s in
-  group8 (length full) full [].
+  let pad := ((8 - len_mod8 s 1) mod 8)%nat in
+  group8 (repeat false pad ++ true :: s) [].
 
 (* ---------- FSE encoding on the decoding table ---------- *)
 Fixpoint find_cell (cells : list fse_cell) (i : N) (P : fse_cell -> bool) : option (N * fse_cell) :=
@@ -113,9 +118,40 @@ Fixpoint enc_seqs (tll tof tml : fse_table) (qs : list eseq) : option (estates *
     end
   end.
 
+(* the same computed from the last sequence to the first with an accumulator, as the C encoder does (and without deep
+   recursion in the extracted code); equal to enc_seqs (EncodeSeqProofs.enc_seqs_fast_eq) *)
+Fixpoint enc_seqs_rev (tll tof tml : fse_table) (rqs : list eseq) (st : estates) (bits : list bool) : option (estates * list bool) :=
+  match rqs with
+  | [] => Some (st, bits)
+  | q :: t =>
+    match seq_codes q with
+    | None => None
+    | Some k =>
+      match enc_step tll (es_ll st) (k_ll k), enc_step tml (es_ml st) (k_ml k), enc_step tof (es_of st) (k_of k) with
+      | Some (sl, bl), Some (sm, bm), Some (so, bo) =>
+        enc_seqs_rev tll tof tml t {| es_ll := sl; es_of := so; es_ml := sm |} (k_bits k ++ bl ++ bm ++ bo ++ bits)
+      | _, _, _ => None
+      end
+    end
+  end.
+
+Definition enc_seqs_fast (tll tof tml : fse_table) (qs : list eseq) : option (estates * list bool) :=
+  match rev' qs with
+  | [] => None
+  | q :: t =>
+    match seq_codes q with
+    | None => None
+    | Some k =>
+      match enc_init tll (k_ll k), enc_init tof (k_of k), enc_init tml (k_ml k) with
+      | Some sl, Some so, Some sm => enc_seqs_rev tll tof tml t {| es_ll := sl; es_of := so; es_ml := sm |} (k_bits k)
+      | _, _, _ => None
+      end
+    end
+  end.
+
 (* the whole bitstream of a sequences section *)
 Definition enc_seq_stream (tll tof tml : fse_table) (qs : list eseq) : option bytes :=
-  match enc_seqs tll tof tml qs with
+  match enc_seqs_fast tll tof tml qs with
   | None => None
   | Some (st, bits) =>
     Some (pack_rbits (bits_msb (N.to_nat (ft_log tll)) (es_ll st)
